@@ -22,7 +22,8 @@ pub fn main(args: &[String]) -> i32 {
     match args[0].as_str() {
         "run" => cmd_run(&args[1..]),
         "worker" => cmd_worker(&args[1..]),
-        "replay" => cmd_replay(&args[1..]),
+        "replay" => cmd_replay_outer(&args[1..]),
+        "replay-inner" => cmd_replay(&args[1..]),
         "one" => cmd_one(&args[1..]),
         "determinism" => cmd_determinism(&args[1..]),
         "hashes" => cmd_hashes(&args[1..]),
@@ -110,6 +111,16 @@ fn minimise(p: &dyn Property, scenario: &str, seed: u64, program: Json, clause: 
     (cur, cur_seed)
 }
 
+fn limit_memory() {
+    // corrupted on-disk data can make nun-db's loader ask for absurd allocations; fail fast
+    // (the process aborts and the driver reports the seed) instead of swapping for minutes
+    let gb: u64 = std::env::var("NUNSIM_MEM_GB").ok().and_then(|s| s.parse().ok()).unwrap_or(6);
+    unsafe {
+        let lim = libc::rlimit { rlim_cur: gb << 30, rlim_max: gb << 30 };
+        libc::setrlimit(libc::RLIMIT_AS, &lim);
+    }
+}
+
 fn cmd_worker(args: &[String]) -> i32 {
     // worker <PROP> <tier> <master> <w> <W> <total_runs>
     if args.len() < 6 {
@@ -126,6 +137,10 @@ fn cmd_worker(args: &[String]) -> i32 {
     let total: u64 = args[5].parse().unwrap();
     let deadline_s: u64 = std::env::var("NUNSIM_WALL_CAP_S").ok().and_then(|s| s.parse().ok()).unwrap_or(3600);
     init_process();
+    limit_memory();
+    let progress_path = std::env::var("NUNSIM_PROGRESS_FILE").ok();
+    let progress = progress_path.as_ref().and_then(|p| std::fs::OpenOptions::new().create(true).write(true).open(p).ok());
+    let first: u64 = std::env::var("NUNSIM_FIRST_INDEX").ok().and_then(|s| s.parse().ok()).unwrap_or(w);
     let start = Instant::now();
     let out = std::io::stdout();
     let mut runs = 0u64;
@@ -143,9 +158,13 @@ fn cmd_worker(args: &[String]) -> i32 {
     let mut seen_sigs: BTreeMap<String, u64> = BTreeMap::new();
     let mut samples: Vec<Json> = Vec::new();
     let mut harness_errors = 0u64;
-    let mut i = w;
+    let mut i = first;
     let mut capped = false;
     while i < total {
+        if let Some(f) = progress.as_ref() {
+            use std::os::unix::fs::FileExt;
+            let _ = f.write_at(&i.to_le_bytes(), 0);
+        }
         if start.elapsed().as_secs() > deadline_s {
             capped = true;
             break;
@@ -215,7 +234,7 @@ fn cmd_worker(args: &[String]) -> i32 {
                 let r2 = p.run_one(scenario, &ctx2);
                 let v2 = r2.violations.iter().find(|x| x.clause == v.clause).cloned();
                 let (fv, fprog, fseed, ftrace) = match v2 {
-                    Some(v2) => (v2, minp, mseed, r2.trace),
+                    Some(v2) => (v2, r2.program.clone(), mseed, r2.trace),
                     None => (v.clone(), r.program.clone(), seed, vec![]),
                 };
                 let tail: Vec<String> = ftrace.iter().rev().take(60).rev().cloned().collect();
@@ -319,43 +338,92 @@ fn cmd_run(args: &[String]) -> i32 {
     let exe = std::env::current_exe().unwrap();
     let start = Instant::now();
     println!("nunsim: property={} tier={} VERIF_SEED={} runs={} workers={}", p.id(), tier_s, master, total, nw);
-    let mut children = Vec::new();
-    for w in 0..nw {
-        let mut cmd = Command::new(&exe);
-        cmd.args(["worker", p.id(), tier_s, &master.to_string(), &w.to_string(), &nw.to_string(), &total.to_string()]);
-        let envs = p.worker_env(w, master);
-        for (k, v) in envs.iter() {
-            cmd.env(k, v);
-        }
-        cmd.stdout(Stdio::piped()).stderr(Stdio::piped());
-        let child = cmd.spawn().expect("spawn worker");
-        children.push((w, child, envs));
-    }
-    // read outputs (threads, so that pipes do not fill)
+    // one supervisor thread per worker slot: respawns the worker after a process abort (the run
+    // that killed it is reported with its seed) so that one fatal case does not end the batch
     let mut handles = Vec::new();
-    for (w, mut child, envs) in children {
+    let pid = std::process::id();
+    for w in 0..nw {
+        let exe = exe.clone();
+        let envs = p.worker_env(w, master);
+        let pid_s = p.id().to_string();
+        let tier_s = tier_s.to_string();
         handles.push(std::thread::spawn(move || {
-            let stdout = child.stdout.take().unwrap();
-            let stderr = child.stderr.take().unwrap();
-            let eh = std::thread::spawn(move || {
-                let mut tail: Vec<String> = Vec::new();
-                for l in BufReader::new(stderr).lines().flatten() {
-                    tail.push(l);
-                    if tail.len() > 40 {
-                        tail.remove(0);
+            let progress_file = format!("/tmp/nunsim-progress-{}-{}", pid, w);
+            let ctx_file = format!("/tmp/nunsim-ctx-{}-{}", pid, w);
+            let mut first = w;
+            let mut lines: Vec<Json> = Vec::new();
+            let mut deaths: Vec<(u64, String, String)> = Vec::new();
+            let mut last_status = None;
+            let mut err_tail: Vec<String> = Vec::new();
+            let mut got_summary = true;
+            for _attempt in 0..40 {
+                if first >= total {
+                    break;
+                }
+                let _ = std::fs::remove_file(&progress_file);
+                let _ = std::fs::remove_file(&ctx_file);
+                let mut cmd = Command::new(&exe);
+                cmd.args(["worker", &pid_s, &tier_s, &master.to_string(), &w.to_string(), &nw.to_string(), &total.to_string()]);
+                for (k, v) in envs.iter() {
+                    cmd.env(k, v);
+                }
+                cmd.env("NUNSIM_PROGRESS_FILE", &progress_file);
+                cmd.env("NUNSIM_ABORT_CTX_FILE", &ctx_file);
+                cmd.env("NUNSIM_FIRST_INDEX", first.to_string());
+                cmd.stdout(Stdio::piped()).stderr(Stdio::piped());
+                let mut child = cmd.spawn().expect("spawn worker");
+                let stdout = child.stdout.take().unwrap();
+                let stderr = child.stderr.take().unwrap();
+                let eh = std::thread::spawn(move || {
+                    let mut tail: Vec<String> = Vec::new();
+                    for l in BufReader::new(stderr).lines().flatten() {
+                        tail.push(l);
+                        if tail.len() > 12 {
+                            tail.remove(0);
+                        }
+                    }
+                    tail
+                });
+                let mut summary = false;
+                for l in BufReader::new(stdout).lines().flatten() {
+                    if let Ok(j) = serde_json::from_str::<Json>(&l) {
+                        if j.get("type").and_then(|t| t.as_str()) == Some("summary") {
+                            summary = true;
+                        }
+                        lines.push(j);
                     }
                 }
-                tail
-            });
-            let mut lines = Vec::new();
-            for l in BufReader::new(stdout).lines().flatten() {
-                if let Ok(j) = serde_json::from_str::<Json>(&l) {
-                    lines.push(j);
+                let status = child.wait().ok();
+                err_tail = eh.join().unwrap_or_default();
+                last_status = status;
+                got_summary = summary;
+                let clean = status.map(|s| s.code().is_some()).unwrap_or(false);
+                if clean {
+                    break;
+                }
+                // killed by a signal: which run was it?
+                let idx = std::fs::read(&progress_file).ok().and_then(|b| {
+                    if b.len() >= 8 {
+                        let mut a = [0u8; 8];
+                        a.copy_from_slice(&b[..8]);
+                        Some(u64::from_le_bytes(a))
+                    } else {
+                        None
+                    }
+                });
+                match idx {
+                    Some(i) => {
+                        let ctx = read_abort_context(&ctx_file).unwrap_or_else(|| "worker-process-died".to_string());
+                        deaths.push((i, ctx, format!("{:?}; stderr tail: {:?}", status, err_tail.iter().rev().take(3).collect::<Vec<_>>())));
+                        first = i + nw;
+                        got_summary = true;
+                    }
+                    None => break,
                 }
             }
-            let status = child.wait().ok();
-            let err_tail = eh.join().unwrap_or_default();
-            (w, lines, status, err_tail, envs)
+            let _ = std::fs::remove_file(&progress_file);
+            let _ = std::fs::remove_file(&ctx_file);
+            (w, lines, last_status, err_tail, envs, deaths, got_summary)
         }));
     }
     let mut runs = 0u64;
@@ -389,8 +457,12 @@ fn cmd_run(args: &[String]) -> i32 {
             }
         }
     }
+    let mut deaths_all: Vec<(u64, String, String, Vec<(String, String)>)> = Vec::new();
     for h in handles {
-        let (w, lines, status, err_tail, envs) = h.join().unwrap();
+        let (w, lines, status, err_tail, envs, deaths, summary_ok) = h.join().unwrap();
+        for (i, ctx, why) in deaths {
+            deaths_all.push((i, ctx, why, envs.clone()));
+        }
         let mut got_summary = false;
         knobs.push(json!({"worker": w, "env": envs.iter().map(|(k,v)| format!("{}={}",k,v)).collect::<Vec<_>>()}));
         for j in lines {
@@ -432,12 +504,25 @@ fn cmd_run(args: &[String]) -> i32 {
                 _ => {}
             }
         }
-        let ok = status.map(|s| s.success() || s.code() == Some(2)).unwrap_or(false);
-        if !got_summary || !ok {
+        let ok = status.map(|s| s.success() || s.code() == Some(2)).unwrap_or(false) || summary_ok;
+        if !(got_summary || summary_ok) || !ok {
             harness_errors.push(format!("worker {} died (status {:?}); stderr tail: {:?}", w, status, err_tail));
         }
     }
     let wall = start.elapsed().as_secs_f64();
+    for (i, actx, why, envs) in deaths_all.iter() {
+        let seed = seed_for(master, p.id(), 0, *i);
+        let scenario = pick_scenario(p, seed);
+        let sig = format!("process-abort/{}", actx);
+        *sig_counts.entry(sig.clone()).or_insert(0) += 1;
+        runs += 1;
+        violations.push((
+            json!({"type":"violation","property":p.id(),"scenario":scenario,"seed":seed,"orig_seed":seed,"clause":"process-abort",
+                   "shape":actx,"message":format!("the process running this case died ({}): {}", actx, why),"program":Json::Null,
+                   "orig_sig":sig,"trace":[]}),
+            envs.clone(),
+        ));
+    }
 
     // triage
     let findings = load_findings(p.id());
@@ -575,6 +660,29 @@ fn cmd_run(args: &[String]) -> i32 {
 // replay / one / determinism
 // ------------------------------------------------------------------------------------------------
 
+/// Runs the replay in a child process so that a case that aborts the process is still reported.
+fn cmd_replay_outer(args: &[String]) -> i32 {
+    let exe = std::env::current_exe().unwrap();
+    let mut a = vec!["replay-inner".to_string()];
+    a.extend(args.iter().cloned());
+    match Command::new(&exe).args(&a).status() {
+        Ok(st) => match st.code() {
+            Some(c) => c,
+            None => {
+                let prop = std::fs::read_to_string(&args[0])
+                    .ok()
+                    .and_then(|t| serde_json::from_str::<Json>(&t).ok())
+                    .and_then(|j| j["property"].as_str().map(|s| s.to_string()))
+                    .unwrap_or_default();
+                println!("replay: the process died ({:?})", st);
+                println!("VIOLATION property={} replay={}", prop, args[0]);
+                1
+            }
+        },
+        Err(_) => 2,
+    }
+}
+
 fn cmd_replay(args: &[String]) -> i32 {
     if args.is_empty() {
         return 2;
@@ -601,6 +709,7 @@ fn cmd_replay(args: &[String]) -> i32 {
         }
     }
     init_process();
+    limit_memory();
     let p = match props::by_id(j["property"].as_str().unwrap_or("")) {
         Some(p) => p,
         None => return 2,
@@ -608,7 +717,8 @@ fn cmd_replay(args: &[String]) -> i32 {
     let scenario = j["scenario"].as_str().unwrap_or("").to_string();
     let seed = j["seed"].as_u64().unwrap_or(0);
     let tier = if j["tier"].as_str() == Some("thorough") { Tier::Thorough } else { Tier::Quick };
-    let ctx = RunCtx { seed, tier, trace: args.len() > 1 && args[1] == "--trace", program: Some(j["program"].clone()) };
+    let program = if j["program"].is_null() { None } else { Some(j["program"].clone()) };
+    let ctx = RunCtx { seed, tier, trace: args.len() > 1 && args[1] == "--trace", program };
     let r = p.run_one(&scenario, &ctx);
     if let Some(e) = r.harness_error {
         eprintln!("harness error: {}", e);
